@@ -29,7 +29,10 @@ MANIFEST = {
             "uninitialised reads, real hangs) cannot be exhibited by a model and is covered by the runtime counterpart only: "
             "grammar-generated valid / nearly valid / random traffic (TP sessions with address loss in the middle, group functions "
             "with pair counts 0..255, NAME 0 / all-ones claims, 126996/126998/126464 of all sizes, damaged fast packets, clock jumps, "
-            "1..9 devices, all modes, device list attached or not) under ASan+UBSan with a watchdog.",
+            "1..9 devices, all modes, device list attached or not) under ASan+UBSan with a watchdog, directed histories that are part of every run, and a reduced "
+            "budget of the same generator under valgrind memcheck (uninitialised reads). Also proved, by restating other properties' theorems: "
+            "every payload delivered by the transport-protocol receiver has <= 223 bytes and exactly its length for every history (C10), the "
+            "device list never faults (C18), an acknowledge never exceeds the payload (C09).",
     'design_ref': 'DESIGN.md section 4, C07',
     'note': "partial: theorems cover index arithmetic, delivered length and loop bounds of the modelled functions; sanitizer runs "
             "(exploration) cover the rest. A sanitizer abort or watchdog timeout is reported with the case as replay.",
